@@ -141,6 +141,12 @@ pub fn exec_op(op: &Value) -> Value {
                 }
                 Ok(out)
             }
+            "recompute" => {
+                // a C14 step on a simulated thread: the step result travels inside the op result
+                let r = emodel::recompute(op);
+                let h = md5hex(serde_json::to_string(&r).unwrap_or_default().as_bytes());
+                Ok(json!({"hash": h, "len": 0, "step": r}))
+            }
             "refpair" => {
                 let (k, text) = disk::text_of(op["project"].as_str().unwrap_or(""));
                 let m = convert_any(k, &text).map_err(|e| e.to_string())?;
